@@ -95,6 +95,17 @@ def calls_of(t, attr_name=None, ext_suffix=None):
     return out
 
 
+def callee_name(t):
+    """Last name of the callee of a call term (`np.fft.ifftshift(x)`, `backend.ifftshift(x)` -> "ifftshift")."""
+    if isinstance(t, T) and t.op == "call" and isinstance(t.args[0], T):
+        c = t.args[0]
+        if c.op == "ext":
+            return str(c.args[0]).rsplit(".", 1)[-1]
+        if c.op == "attr":
+            return c.args[1]
+    return None
+
+
 def strip(t, wrappers=("computed",), ext_wrappers=("asnumpy", "asarray", "compute")):
     """Remove value-preserving wrappers at the top of a term."""
     while isinstance(t, T):
@@ -146,6 +157,9 @@ class TermDomain(Domain):
                     return Tup([comp(x) for x in v.items])
                 return T("computed", (freeze(v),))
             return Tup([comp(a) for a in args])
+        if name == "builtins.sum" and args and isinstance(args[0], ListOf):
+            init = freeze(args[1]) if len(args) > 1 else T("const", ("0",))
+            return T("fold", ("Add", init, freeze(args[0].elem)))
         a, kw = self._args(args, kwargs)
         if name and name.startswith("value.") and recv is not None:
             return T("call", (T("attr", (freeze(recv), last)), a, kw))
@@ -188,6 +202,15 @@ class TermDomain(Domain):
         return NotImplemented
 
     def join(self, interp, a, b):
+        # accumulation in a loop: `acc = init; for ...: acc = acc OP x`  ->  fold(OP, init, x)   (the same value as `sum(x for ...)` for OP = Add, init = 0)
+        fa, fb = freeze(a), freeze(b)
+        if fa == fb:
+            return a
+        for x, y in ((fa, fb), (fb, fa)):
+            if y.op == "op" and len(y.args) == 3 and y.args[1] == x and x.op != "fold":
+                return T("fold", (y.args[0], x, y.args[2]))
+            if x.op == "fold" and y.op == "op" and len(y.args) == 3 and y.args[0] == x.args[0] and y.args[1] == x and y.args[2] == x.args[2]:
+                return x
         if isinstance(a, T) and isinstance(b, T):
-            return a if a == b else TOP
+            return TOP
         return super().join(interp, a, b)
